@@ -438,7 +438,7 @@ func (it *Interp) intrinsic(fn *ssa.Function, args []Val, c *ssa.CallCommon) (Va
 		}
 		it.unsupported("os." + name)
 	}
-	if pkg == "compress/gzip" || pkg == "compress/zlib" || pkg == "compress/bzip2" || pkg == "compress/flate" {
+	if pkg == "compress/bzip2" {
 		it.unsupported("compress/* is not modelled (" + full + ")")
 	}
 	if pkg == "runtime" || pkg == "syscall" || strings.HasPrefix(pkg, "internal/") && fn.Blocks == nil {
